@@ -83,8 +83,18 @@ struct Seen {
 }
 
 fn get(cfg: &SvcCfg, host: &str, path: &str) -> Seen {
+    get_via(cfg, host, path, false)
+}
+
+/// `h2`: the request as HTTP/2 delivers it - no Host line, the host in the URI's authority
+fn get_via(cfg: &SvcCfg, host: &str, path: &str, h2: bool) -> Seen {
     let (svc, log) = cfg.build();
-    let req = Req::new("GET", path).header("host", host);
+    let mut req = Req::new("GET", path).header("host", host);
+    if h2 {
+        req.remove_header("host");
+        req.version = http::Version::HTTP_2;
+        req.authority = Some(host.to_owned());
+    }
     let out = call(&svc, &req, body_one_frame(b""));
     let calls = backend_calls(&log);
     let bucket_key = calls.first().and_then(|c| c.input.downcast_ref::<GetObjectInput>().map(|i| (i.bucket.clone(), i.key.clone())));
@@ -283,6 +293,15 @@ fn keys_and_hosts(acc: &mut Acc) {
                     }
                     continue;
                 }
+                // the same request as HTTP/2 delivers it (host in the authority, no Host line) resolves the same way
+                if !host.starts_with('[') {
+                    a.eval();
+                    let via_h2 = get_via(&cfg, &host, &path, true);
+                    if via_h2.bucket_key != seen.bucket_key {
+                        a.outcome("HTTP/2 authority RESOLVED DIFFERENTLY");
+                        a.fail(&format!("C12/resolution/http2-authority-resolved-differently/{expect}-style"), ki, id(), format!("host {host:?} path {:?}: with a Host line the backend saw {:?}, with the same host as HTTP/2 authority {:?} ({})", path.chars().take(60).collect::<String>(), seen.bucket_key, via_h2.bucket_key, via_h2.verdict), json!({"host": host}));
+                    }
+                }
                 match &seen.bucket_key {
                     Some((b, k)) if b == bucket && k == key => a.outcome(&format!("{expect}-style resolved verbatim")),
                     Some((b, k)) => {
@@ -370,7 +389,7 @@ pub fn run(ctx: &Ctx) -> (Acc, Report) {
     let n = ctx.tier.pick(7, 8);
     let rep = Report {
         level: "exploration",
-        rule: format!("bucket names: all strings of length 0..{n} over {{a,A,1,.,-,_}} plus boundary lengths, IP shapes and reserved prefixes/suffixes, each path-style and virtual-hosted-style, on an object-level and on a bucket-level request (GET /name, GET /name/, GET / under the bucket's host), judged by a sandwich (breaks a core rule => refused; valid under the complete published rules => accepted and resolved to itself; in between not judged). Keys: 63 keys (slashes, dots, blanks, + % ? # non-ASCII, literal escapes, 1023/1024/1025 bytes; keys made only of escaped characters - blank % # ? + and 2-, 3-, 4-byte characters - at the limit, over it, and at a third of it) x host parser {{none, single, multi(1..4)}} x hosts {{each base domain, bucket.domain, three hosts per domain that end with its text without belonging to it, IPv4, IPv4:port, [v6]:port, [v6]}}: backend's (bucket,key) must equal the client's in both styles. Constructors: all ordered selections of <=3 of 11 domains. Distinct by id."),
+        rule: format!("bucket names: all strings of length 0..{n} over {{a,A,1,.,-,_}} plus boundary lengths, IP shapes and reserved prefixes/suffixes, each path-style and virtual-hosted-style, on an object-level and on a bucket-level request (GET /name, GET /name/, GET / under the bucket's host), judged by a sandwich (breaks a core rule => refused; valid under the complete published rules => accepted and resolved to itself; in between not judged). Keys: 63 keys (slashes, dots, blanks, + % ? # non-ASCII, literal escapes, 1023/1024/1025 bytes; keys made only of escaped characters - blank % # ? + and 2-, 3-, 4-byte characters - at the limit, over it, and at a third of it) x host parser {{none, single, multi(1..4)}} x hosts {{each base domain, bucket.domain, three hosts per domain that end with its text without belonging to it, IPv4, IPv4:port, [v6]:port, [v6]}}: backend's (bucket,key) must equal the client's in both styles, and be the same when the host arrives as an HTTP/2 authority instead of a Host line. Constructors: all ordered selections of <=3 of 11 domains. Distinct by id."),
         exhaustive: true,
         extra: json!({}),
         assumptions: vec!["a Host that belongs (label-wise) to no configured base domain may be refused or taken as a whole (bucket = host, the repository's choice); it must never be split against a base domain whose text it merely ends with".into(), "keys are percent-encoded once by the reference encoder (UriEncode, slash kept)".into()],
